@@ -171,3 +171,35 @@ Definition c17_size_row (site rname : string) (schema : option string) (q : requ
     on_ok (fun p s => ok_min_nodes p q s);
     on_ok (fun p s => ok_job_counts p s);
     match obs with inr s => negb (nonneg_req q) || ok_agent_same s | inl _ => true end ].
+
+(* a submission bulk: several pilots prepared from ONE resource config object
+   (_start_pilot_bulk).  Every pilot of the bulk has to meet the per-pilot
+   clauses, whatever was prepared before it. *)
+Fixpoint all2 {A B} (f : A -> B -> bool) (a : list A) (b : list B) : bool :=
+  match a, b with
+  | x :: a', y :: b' => f x y && all2 f a' b'
+  | _, _ => true
+  end.
+
+Definition c17_bulk_row (site rname : string) (schema : option string) (qs : list request)
+  (obs : res (list sized)) : list bool :=
+  let sh := shipped (site, rname, schema) in
+  let pl q := platform site rname schema (q_env_smt q) in
+  let each (f : nodeparams -> request -> sized -> bool) :=
+      match obs with
+      | inr ss => (List.length ss =? List.length qs)%nat
+                  && all2 (fun q s => match pl q with
+                                      | inr (_, p) => negb (sh && nonneg_req q) || f p q s
+                                      | inl _ => true
+                                      end) qs ss
+      | inl _ => true
+      end in
+  [ res_eqb (eqb_list sized_eqb) (launch_bulk T site rname schema qs) obs;
+    true; true; true; true; true; true; true;
+    negb (sh && forallb (fun q => match pl q with
+                                  | inr (ma, p) => valid_request ma p q
+                                  | inl _ => false
+                                  end) qs) || is_ok obs;
+    each (fun p q s => ok_min_nodes p q s);
+    each (fun p q s => ok_job_counts p s);
+    each (fun p q s => negb (nonneg_req q) || ok_agent_same s) ].
